@@ -2,12 +2,12 @@
    replace an @outer/@inner loop, transcribed from
      src/occa/internal/lang/modes/oklForStatement.cpp
         :11-59   constructor (validity, compile-time empty-range rejection)
-        :300-364 getIterationCount          -> [count_tree]
-        :366-394 makeDeclarationValue       -> [value_tree]
-        :406-445 getOklLoopIndex            -> [axis_of]
+        :301-363 getIterationCount          -> [count_tree]
+        :365-394 makeDeclarationValue       -> [value_tree]
+        :408-445 getOklLoopIndex            -> [axis_of]
      src/occa/internal/lang/modes/withLauncher.cpp
-        :186-287 setKernelLaunch / :355-370 setDim   (outer[axis] = count, inner[axis] = count)
-        :572-623 replaceOccaFor             (T it = value(thread index of axis))
+        :180-287 setKernelLaunch / :361-376 setDim   (outer[axis] = count, inner[axis] = count)
+        :589-630 replaceOccaFor             (T it = value(thread index of axis))
      src/core/kernel.cpp:171 kernel::run + src/occa/internal/core/kernel.cpp:133 isNoop
                                             -> [launch_blocks]
    and, for Serial/OpenMP, of the fact that the loop statement is kept as written ([kept_header]).
